@@ -245,3 +245,22 @@ func prefixesOf(s sim.Source, pool []*model.Pattern) []string {
 	}
 	return out
 }
+
+// prefillFanout registers every fan-out sibling of the pool (patterns "/f/?x") for GET so that one node really has more
+// than 50 children (the linear/binary search switch).
+func prefillFanout(w *world.World, set *model.Set, cfg world.Cfg, pool []*model.Pattern, nextTag *int) (string, bool) {
+	n := 0
+	for i, p := range pool {
+		if len(p.Raw) == 5 && strings.HasPrefix(p.Raw, "/f/") && p.Raw[4] == 'x' {
+			*nextTag++
+			op := WOp{Kind: "handle", Method: "GET", Pat: i, Tag: *nextTag}
+			want := applyModel(set, cfg, pool, op)
+			out := applyFox(w, w.R, pool, op)
+			if !sameOut(out, want) {
+				return fmt.Sprintf("fan-out prefill %v returned %v, model %v", op, out, want), false
+			}
+			n++
+		}
+	}
+	return fmt.Sprintf("<fan-out prefill: %d siblings under /f/ for GET>", n), n > 0
+}
